@@ -79,7 +79,7 @@ def run(ctx):
         ctx.count("oracle_selfcheck_enumerations", n)
         if not oracle.close(v, ref_nw(a, b, m, mod, g)):
             raise RuntimeError("reference NW DP disagrees with enumeration")
-    N = 500 if ctx.quick else 8000
+    N = ctx.scale(12000, 100000)
     orders = list(itertools.permutations([0, 1, 2]))
     for _ in range(N):
         l1, l2 = rng.randint(0, 8), rng.randint(0, 8)
